@@ -32,7 +32,7 @@ ASSUMPTIONS = [
     'invalid fragment (removed by --no_rejects) = R1 absent/unmapped, pre-set qc-fail, or (nla) R1 without CATG: generator label, cross-checked against the default run',
 ]
 COMPONENTS = {'real': tc.TAGGER_REAL, 'stub': tc.TAGGER_STUB}
-REQUIRED_PROBES = ['forked_worker_processes', 'input_header_declares_read_groups_subset', 'many_small_contigs_layout', 'index_stale', 'index_missing', 'contig_with_only_placed_unmapped_reads', 'multiprocess_lifetime', 'delivery_order_not_submission_order', 'small_group_and_large_contig', 'unplaced_reads', 'no_rejects_run', 'invalid_fragment_present', 'orphan_or_halfmapped', 'empty_contig']
+REQUIRED_PROBES = ['input_records_carry_foreign_RG', 'forked_worker_processes', 'input_header_declares_read_groups_subset', 'many_small_contigs_layout', 'index_stale', 'index_missing', 'contig_with_only_placed_unmapped_reads', 'multiprocess_lifetime', 'delivery_order_not_submission_order', 'small_group_and_large_contig', 'unplaced_reads', 'no_rejects_run', 'invalid_fragment_present', 'orphan_or_halfmapped', 'empty_contig']
 
 
 def plan(tier):
@@ -89,7 +89,7 @@ def generate(seed, tier):
             f['clip'] = 0
     params = {'method': method, 'encoded': w.random() < 0.7, 'lib': w.choice(['LIB', 'my-lib_1']),
               # state of the input's index when the tagger starts: fresh, missing, or left over from an earlier version of the file (N seconds older)
-              'index_state': weighted(w, [(None, 6), (['missing'], 1), (['stale', w.choice([1, 5, 30, 59, 61, 3600])], 2)]),
+              'index_state': weighted(w, [(None, 6), (['missing'], 1), (['stale', w.choice([1, 5, 30, 59, 61, 3600])], 2), (['stale-empty', w.choice([1, 30, 3600])], 1)]),
               # read groups the input header already declares
               'header_rgs': weighted(w, [(None, 6), ('subset', 2), ('all', 1), ('other', 1)])}
     s = st.schedule
@@ -99,6 +99,9 @@ def generate(seed, tier):
               'isolation': s.choice(['inproc', 'fork'])}]
     if (w.random() < 0.5 or force_nr) and method != 'qflag':   # qflag writes all reads by design (--no_rejects is overridden)
         modes += [dict(m, no_rejects=True, name=m['name'] + '/no_rejects') for m in modes]
+    if w.random() < 0.15:
+        for f in frags:
+            f['foreign_rg'] = w.choice(['alignerRG', 'LIB'])       # the input records already carry an RG tag of another scheme
     if s.random() < 0.015:
         # stub fidelity: the same input through the real fork-based multiprocessing.Pool (its schedule is not controlled; the oracle is the same)
         modes.append({'mp': True, 'name': 'multi/realpool', 'width': s.randint(2, 4), 'real_pool': True})
@@ -148,7 +151,9 @@ def execute(case):
         if len(case['genome']) > 50:
             probe('many_small_contigs_layout')
         if p.get('index_state'):
-            probe('index_' + p['index_state'][0])
+            probe('index_' + p['index_state'][0].replace('-', '_'))
+        if any(f.get('foreign_rg') for f in case['workload']):
+            probe('input_records_carry_foreign_RG')
         if p.get('header_rgs'):
             probe('input_header_declares_read_groups_' + p['header_rgs'])
         if any(f.get('defect') == 'placed_unmapped' for f in case['workload']):
